@@ -17,7 +17,7 @@ const (
 	firstTx    = 201  // scenario transaction ids (1..BaseH are the base coinbases)
 	firstBulky = 5001 // bulky transactions of the eviction tier
 	firstChain = 7001 // a long chain of unconfirmed transactions (replacements with > 100 descendants)
-	firstMotif = 400  // funding tx 400, then (pooled tx, its child, its cheaper multi-input double spend) triples
+	firstMotif = 400  // funding tx 400, then the motif groups (see makeMotifs)
 	nMotif     = 8
 	firstRank  = 8000 // the rank-run family: funding tx, anchor, tail, a run of insertions behind the anchor, two-parent children
 	unknownTx  = 9000 // parents that never exist
@@ -239,33 +239,121 @@ func (g *gen) makeTx(id int) {
 	g.sc.Tx[id] = conc.TxDef{Ins: ins, Outs: outs, Ver: 2}
 }
 
-// makeMotifs: funding tx (base coinbase 13) with 3 outputs per triple; P spends the first, C spends P,
-// M spends the second (and for odd triples the third) and, as its LAST input, the one P spends - paying less
+// Motif groups.  A funding tx (base coinbase 13, confirmed at the start of every history) gives each group four
+// confirmed outputs a, b, c, d.  Per group (ids base .. base+9):
+//
+//	P  = [a]            two outputs            C1 = [P:1]  two outputs     C2 = [C1:1]     C3 = [C2:1]
+//	Q  = [b]                                   G  = [C1:2, Q:1]   a grandchild of P with a second, unrelated parent
+//	M  = [c, (d,) a]    cheaper double spend of P, the contested output being its LAST input (refused, kept with data)
+//	R  = [a]            double spend of P that pays more than P and everything below it (accepted: depth 3 + diamond go)
+//	B  = [P:2 with a script that does not satisfy it]                      BC = [B:1]  child of the bad one
+const motifSize = 12
+
+func motifIds(j int) (p, c1, c2, c3, q, gg, m, rr, b, bc int) {
+	base := firstMotif + 10 + motifSize*j
+	return base, base + 1, base + 2, base + 3, base + 4, base + 5, base + 6, base + 7, base + 8, base + 9
+}
+
 func (g *gen) makeMotifs() {
 	const unit = 50000000
 	sh := func(addr int, sat uint64) conc.OutDef {
 		return conc.OutDef{Amt: g.amt(sat), Addr: addr, St: conc.StP2SH}
 	}
-	f := conc.TxDef{Ins: []conc.InDef{{Tx: 13, Vout: 1, Ok: true}}, Ver: 2}
-	for v := 0; v < 3*nMotif; v++ {
+	in := func(tx, vout int) conc.InDef { return conc.InDef{Tx: tx, Vout: vout, Ok: true} }
+	f := conc.TxDef{Ins: []conc.InDef{in(13, 1)}, Ver: 2}
+	for v := 0; v < 4*nMotif; v++ {
 		f.Outs = append(f.Outs, sh(firstMotif*10+v, unit))
 	}
-	f.Outs = append(f.Outs, sh(firstMotif*10+3*nMotif, 50e8-3*nMotif*unit-50000))
+	f.Outs = append(f.Outs, sh(firstMotif*10+4*nMotif, 50e8-4*nMotif*unit-50000))
 	g.sc.Tx[firstMotif] = f
 	for j := 0; j < nMotif; j++ {
-		p, c, m := firstMotif+10+4*j, firstMotif+11+4*j, firstMotif+12+4*j
-		g.sc.Tx[p] = conc.TxDef{Ins: []conc.InDef{{Tx: firstMotif, Vout: 3*j + 1, Ok: true}},
-			Outs: []conc.OutDef{sh(p*10, unit/2), sh(p*10+1, unit/2-20000)}, Ver: 2}
-		g.sc.Tx[c] = conc.TxDef{Ins: []conc.InDef{{Tx: p, Vout: 1, Ok: true}}, Outs: []conc.OutDef{sh(c*10, unit/2-8000)}, Ver: 2}
-		ins := []conc.InDef{{Tx: firstMotif, Vout: 3*j + 2, Ok: true}}
+		p, c1, c2, c3, q, gg, m, rr, b, bc := motifIds(j)
+		a := 4*j + 1
+		g.sc.Tx[p] = conc.TxDef{Ins: []conc.InDef{in(firstMotif, a)}, Outs: []conc.OutDef{sh(p*10, unit/2), sh(p*10+1, unit/2-20000)}, Ver: 2}
+		g.sc.Tx[c1] = conc.TxDef{Ins: []conc.InDef{in(p, 1)}, Outs: []conc.OutDef{sh(c1*10, unit/4), sh(c1*10+1, unit/4-8000)}, Ver: 2}
+		g.sc.Tx[c2] = conc.TxDef{Ins: []conc.InDef{in(c1, 1)}, Outs: []conc.OutDef{sh(c2*10, unit/4-6000)}, Ver: 2}
+		g.sc.Tx[c3] = conc.TxDef{Ins: []conc.InDef{in(c2, 1)}, Outs: []conc.OutDef{sh(c3*10, unit/4-6000-7000)}, Ver: 2}
+		g.sc.Tx[q] = conc.TxDef{Ins: []conc.InDef{in(firstMotif, a+1)}, Outs: []conc.OutDef{sh(q*10, unit-9000)}, Ver: 2}
+		g.sc.Tx[gg] = conc.TxDef{Ins: []conc.InDef{in(c1, 2), in(q, 1)}, Outs: []conc.OutDef{sh(gg*10, unit/4-8000+unit-9000-12000)}, Ver: 2}
+		ins := []conc.InDef{in(firstMotif, a+2)}
 		sum := uint64(unit)
 		if j%2 == 1 {
-			ins = append(ins, conc.InDef{Tx: firstMotif, Vout: 3*j + 3, Ok: true})
+			ins = append(ins, in(firstMotif, a+3))
 			sum += unit
 		}
-		ins = append(ins, conc.InDef{Tx: firstMotif, Vout: 3*j + 1, Ok: true})
+		ins = append(ins, in(firstMotif, a))
 		sum += unit
 		g.sc.Tx[m] = conc.TxDef{Ins: ins, Outs: []conc.OutDef{sh(m*10, sum-uint64(1500+100*j))}, Ver: 2}
+		g.sc.Tx[rr] = conc.TxDef{Ins: []conc.InDef{in(firstMotif, a)}, Outs: []conc.OutDef{sh(rr*10, unit-600000)}, Ver: 2}
+		g.sc.Tx[b] = conc.TxDef{Ins: []conc.InDef{{Tx: p, Vout: 2, Ok: false}}, Outs: []conc.OutDef{sh(b*10, unit/2-20000-9000)}, Ver: 2}
+		g.sc.Tx[bc] = conc.TxDef{Ins: []conc.InDef{in(b, 1)}, Outs: []conc.OutDef{sh(bc*10, unit/2-20000-9000-9000)}, Ver: 2}
+	}
+}
+
+// motifOps: one of the scripted situations, on a random group
+func (g *gen) motifOps(ln *OpLine) {
+	r := g.rng
+	p, c1, c2, c3, q, gg, m, rr, b, bc := motifIds(r.Intn(nMotif))
+	sub := func(ts ...int) {
+		for _, t := range ts {
+			ln.Ops = append(ln.Ops, Op{A: "Submit", T: t, Mode: "net"})
+		}
+	}
+	switch r.Intn(3) {
+	case 0:
+		// a transaction (and its child) is pooled, its cheaper double spend is refused but kept in the reject cache
+		// (or: was pooled first and got replaced), and then somebody mines the double spend
+		if r.Intn(3) == 0 {
+			sub(m)
+		}
+		sub(p)
+		if r.Intn(3) > 0 {
+			sub(c1)
+		}
+		sub(m)
+		if r.Intn(4) == 0 {
+			ln.Ops = append(ln.Ops, Op{A: "SaveLoad"})
+		}
+		ln.Ops = append(ln.Ops, Op{A: "MineRejected", Txs: []int{m}})
+	case 1:
+		// a transaction with descendants three levels deep (and a grandchild that has a second, unrelated parent)
+		// is replaced by a double spend paying more than all of them: every descendant has to leave with it
+		sub(p, c1)
+		switch r.Intn(4) {
+		case 0:
+			sub(c2)
+		case 1:
+			sub(c2, c3)
+		case 2:
+			sub(q, gg, c2, c3)
+		default:
+			sub(c2, q, gg)
+		}
+		if r.Intn(4) == 0 {
+			ln.Ops = append(ln.Ops, Op{A: "SaveLoad"})
+		}
+		sub(rr)
+		ln.Ops = append(ln.Ops, Op{A: "Observe"})
+		if r.Intn(2) == 0 {
+			ln.Ops = append(ln.Ops, Op{A: "MineListing", K: -1})
+		}
+	default:
+		// a transaction whose script does not satisfy its unconfirmed parent's output, from the network: before
+		// the parent (it waits as an orphan and is retried when the parent arrives) or after it; never pooled,
+		// and nothing is built on it
+		switch r.Intn(3) {
+		case 0:
+			sub(b, p)
+		case 1:
+			sub(bc, b, p)
+		default:
+			sub(p, b, bc)
+		}
+		sub(b, bc)
+		ln.Ops = append(ln.Ops, Op{A: "Observe"})
+		if r.Intn(2) == 0 {
+			ln.Ops = append(ln.Ops, Op{A: "MineListing", K: -1})
+		}
 	}
 }
 
@@ -370,6 +458,10 @@ func (g *gen) makeOps(ntx, nops, nbulky, nchain, nrank, variant int) OpLine {
 	// the funding transaction of the motif triples is confirmed first
 	ln.Ops = append(ln.Ops, Op{A: "Submit", T: firstMotif, Mode: "net"}, Op{A: "MineListing", K: -1})
 	for len(ln.Ops) < nops {
+		if r.Intn(100) < 3 {
+			g.motifOps(&ln)
+			continue
+		}
 		k := r.Intn(100)
 		switch {
 		case k < 86:
@@ -384,24 +476,6 @@ func (g *gen) makeOps(ntx, nops, nbulky, nchain, nrank, variant int) OpLine {
 			recent = append(recent, t)
 		case k < 90:
 			ln.Ops = append(ln.Ops, Op{A: "MineListing", K: []int{-1, -1, 1, 2, 3, 5}[r.Intn(6)]})
-		case k < 92 && r.Intn(3) == 0:
-			// a transaction (and its child) is pooled, its cheaper double spend - contested output not its first
-			// input - is refused but kept in the reject cache (or: was pooled first and got replaced), and then
-			// somebody mines the double spend
-			j := r.Intn(nMotif)
-			p, c, m := firstMotif+10+4*j, firstMotif+11+4*j, firstMotif+12+4*j
-			if r.Intn(3) == 0 {
-				ln.Ops = append(ln.Ops, Op{A: "Submit", T: m, Mode: "net"})
-			}
-			ln.Ops = append(ln.Ops, Op{A: "Submit", T: p, Mode: "net"})
-			if r.Intn(3) > 0 {
-				ln.Ops = append(ln.Ops, Op{A: "Submit", T: c, Mode: "net"})
-			}
-			ln.Ops = append(ln.Ops, Op{A: "Submit", T: m, Mode: "net"})
-			if r.Intn(4) == 0 {
-				ln.Ops = append(ln.Ops, Op{A: "SaveLoad"})
-			}
-			ln.Ops = append(ln.Ops, Op{A: "MineRejected", Txs: []int{m}})
 		case k < 92:
 			if r.Intn(2) == 0 {
 				ln.Ops = append(ln.Ops, Op{A: "MineRejected", Txs: some(r.Intn(2))})
